@@ -54,20 +54,51 @@ Proof.
     rewrite sum_values_app in *. unfold sum_values in *. cbn. lia.
 Qed.
 
+Lemma hd_error_in {A} (l : list A) x : hd_error l = Some x -> In x l.
+Proof. destruct l; cbn; intros H; [discriminate | inversion H; left; reflexivity]. Qed.
+
+(** select_single_spendable_note: the note it returns is spendable in the same sense. *)
+Lemma select_single_pool_sound db e acct p anchor tv pol exclude lf r :
+  1 <= p_trusted pol -> p_trusted pol <= p_untrusted pol ->
+  select_single_pool db e acct p anchor tv pol exclude lf = Some r ->
+  In r db
+  /\ spendable (SC acct p (e_target e) anchor (tip_unscanned e p anchor) pol (owners_opt lf)) r = true.
+Proof.
+  intros Ht Hu H. unfold select_single_pool in H. apply hd_error_in in H.
+  apply filter_In in H. destruct H as [H Hconf].
+  apply filter_In in H. destruct H as [H _].
+  apply (Permutation_in _ (sort_rows_perm _ _)) in H.
+  apply filter_In in H. destruct H as [H Hel].
+  apply of_pool_in in H. destruct H as [Hdb Hp].
+  rewrite eligible_where_spec in Hel. unfold eligible_spec in Hel.
+  cbn [mk_q q_account q_anchor q_tip_unscanned q_exclude q_target q_owners] in Hel.
+  rewrite !andb_true_iff in Hel.
+  destruct Hel as [[[[[[[[[Ha Hv] _] _] _] Hm] Hw] Hx] Hs] Hl].
+  rewrite has_confirmations_spec in Hconf by assumption.
+  split; [exact Hdb|].
+  unfold spendable. cbn [sc_acct sc_pool sc_target sc_pol sc_anchor sc_tipuns sc_owners].
+  rewrite Ha, Hs, Hconf, Hm, Hw. rewrite (proj2 (pool_eqb_eq _ _) Hp). cbn.
+  destruct lf; cbn in *; [reflexivity | exact Hl].
+Qed.
+
 Section Greedy.
-  Variable change : list note_row -> change_result.
+  Variable change : Z -> list note_row -> change_result.
   Variable db : list note_row.
   Variable e : env.
   Variables acct pay : Z.
   Variable prefs : list pool.
   Variable pol : policy.
   Variable lp : lip.
+  Variable iw : bool.
+  Variable step_anchor : Z.
+  Variable single : bool.
 
   Hypothesis Hn : NoDup (rrefs db).
   Hypothesis Ht : 1 <= p_trusted pol.
   Hypothesis Hu : p_trusted pol <= p_untrusted pol.
 
-  (** A row the proposal may spend: in the wallet, in a permitted pool, spendable per Spec. *)
+  (** A row the proposal may spend: in the wallet, in a permitted pool, spendable per Spec at the
+      anchor the data source selects at. *)
   Definition okrowb (r : note_row) : bool :=
     match e_anchor e with
     | None => false
@@ -116,6 +147,31 @@ Section Greedy.
         * apply I1 in Hr'. destruct Hr' as [_ Hr']. congruence.
   Qed.
 
+  Lemma select_single_in_good anchor req excl : forall ps,
+    e_anchor e = Some anchor -> (forall p, In p ps -> In p prefs) ->
+    good (select_single_in db e acct pol lp anchor req excl ps).
+  Proof.
+    induction ps as [|p t IH]; intros Ha Hps; cbn; [split; [intros r [] | constructor]|].
+    destruct (select_single_pool db e acct p anchor req pol excl (LFPolicy lp)) as [r|] eqn:E.
+    - apply select_single_pool_sound in E; [|assumption|assumption]. destruct E as [Hdb Hs].
+      assert (Hp : r_pool r = p).
+      { unfold spendable in Hs. rewrite !andb_true_iff in Hs. apply pool_eqb_eq. cbn in Hs. tauto. }
+      split; [|cbn; constructor; [intros [] | constructor]].
+      intros r' [<-|[]]. split; [exact Hdb|]. unfold okrowb. rewrite Ha, Hp.
+      replace (existsb (pool_eqb p) prefs) with true; [exact Hs|].
+      symmetry. apply existsb_exists. exists p. split; [apply Hps; left; reflexivity | apply pool_eqb_eq; reflexivity].
+    - apply IH; [exact Ha | intros q Hq; apply Hps; right; exact Hq].
+  Qed.
+
+  Lemma select_next_good req excl : good (select_next db e acct prefs pol lp single req excl).
+  Proof.
+    unfold select_next.
+    destruct single; [|apply select_all_good].
+    destruct (e_anchor e) as [anchor|] eqn:Ha; [|apply select_all_good].
+    pose proof (select_single_in_good anchor req excl prefs Ha (fun p H => H)) as G.
+    destruct (select_single_in db e acct pol lp anchor req excl prefs) as [|x t]; [apply select_all_good | exact G].
+  Qed.
+
   Lemma trim_good sel used : good sel -> good (trim sel used).
   Proof.
     intros [G1 G2]. unfold trim.
@@ -138,46 +194,53 @@ Section Greedy.
   Definition step_ok (s : step) : Prop :=
     exists inputs,
       s_inputs s = rrefs inputs /\ s_in_value s = sum_values inputs /\ s_tin s = 0 /\ s_pay s = pay
+      /\ s_anchor s = Some step_anchor
       /\ good inputs /\ step_balanced s = true.
 
-  Lemma step_from_parts_ok inputs ch fee s :
-    good inputs -> step_from_parts inputs pay ch fee = Ok s ->
-    step_ok s /\ s_change s = ch /\ s_fee s = fee.
+  Lemma step_from_parts_ok inputs cs fee s :
+    good inputs -> step_from_parts iw inputs step_anchor pay cs fee = Ok s ->
+    step_ok s /\ s_changes s = cs /\ s_fee s = fee.
   Proof.
     intros G H. unfold step_from_parts in H.
+    destruct (iw && _ && _); [discriminate|].
     destruct (_ =? _) eqn:E; [|discriminate]. inversion H; subst. clear H.
-    split; [|split; reflexivity]. exists inputs. cbn [s_inputs s_in_value s_tin s_pay].
-    split; [reflexivity|]. split; [reflexivity|]. split; [reflexivity|]. split; [reflexivity|]. split; [exact G|].
-    unfold step_balanced. cbn [s_in_value s_pay s_change s_fee]. lia.
+    split; [|split; reflexivity]. exists inputs. cbn [s_inputs s_in_value s_tin s_pay s_anchor].
+    split; [reflexivity|]. split; [reflexivity|]. split; [reflexivity|]. split; [reflexivity|].
+    split; [reflexivity|]. split; [exact G|].
+    unfold step_balanced, s_change. cbn [s_in_value s_pay s_changes s_fee]. lia.
   Qed.
 
   Lemma greedy_sound fuel : forall sel prior req excl s,
-    good sel -> greedy change db e acct pay prefs pol lp fuel sel prior req excl = Ok s -> step_ok s.
+    good sel ->
+    greedy change db e acct pay prefs pol lp iw step_anchor single fuel sel prior req excl = Ok s -> step_ok s.
   Proof.
     induction fuel as [|f IH]; intros sel prior req excl s G H; cbn in H; [discriminate|].
-    destruct (change (trim sel (use_pools sel req prefs))) as [ch fee|req'|ids|] eqn:E.
+    destruct (change step_anchor (trim sel (use_pools sel req prefs))) as [cs fee|req'|ids|] eqn:E.
     - eapply step_from_parts_ok; [apply trim_good; exact G | exact H].
-    - destruct (_ <=? prior); [discriminate|]. eapply IH; [apply select_all_good | exact H].
-    - destruct (_ <=? prior); [discriminate|]. eapply IH; [apply select_all_good | exact H].
+    - destruct (_ <=? prior); [discriminate|]. eapply IH; [apply select_next_good | exact H].
+    - destruct (_ <=? prior); [discriminate|]. eapply IH; [apply select_next_good | exact H].
     - discriminate.
   Qed.
 
   Theorem propose_transaction_sound fuel s :
-    propose_transaction change db e acct pay prefs pol lp fuel = Ok s -> step_ok s.
+    propose_transaction change db e acct pay prefs pol lp iw step_anchor single fuel = Ok s -> step_ok s.
   Proof.
     unfold propose_transaction. apply greedy_sound. split; [intros r [] | constructor].
   Qed.
 
   (** The change strategy returns amounts (Zatoshis): non-negative change and fee. *)
-  Definition change_nonneg : Prop := forall l ch fee, change l = OBal ch fee -> 0 <= ch /\ 0 <= fee.
+  Definition change_nonneg : Prop :=
+    forall a l cs fee, change a l = OBal cs fee -> 0 <= change_total cs /\ 0 <= fee.
 
   Lemma greedy_change_nonneg fuel : forall sel prior req excl s,
-    change_nonneg -> greedy change db e acct pay prefs pol lp fuel sel prior req excl = Ok s ->
+    change_nonneg ->
+    greedy change db e acct pay prefs pol lp iw step_anchor single fuel sel prior req excl = Ok s ->
     0 <= s_change s /\ 0 <= s_fee s.
   Proof.
     induction fuel as [|f IH]; intros sel prior req excl s C H; cbn in H; [discriminate|].
-    destruct (change (trim sel (use_pools sel req prefs))) as [ch fee|req'|ids|] eqn:E.
-    - unfold step_from_parts in H. destruct (_ =? _); [|discriminate]. inversion H; subst. cbn. eapply C; exact E.
+    destruct (change step_anchor (trim sel (use_pools sel req prefs))) as [cs fee|req'|ids|] eqn:E.
+    - unfold step_from_parts in H. destruct (iw && _ && _); [discriminate|].
+      destruct (_ =? _); [|discriminate]. inversion H; subst. unfold s_change. cbn. eapply C; exact E.
     - destruct (_ <=? prior); [discriminate|]. eapply IH; eassumption.
     - destruct (_ <=? prior); [discriminate|]. eapply IH; eassumption.
     - discriminate.
@@ -197,11 +260,11 @@ Section Greedy.
   Theorem insufficient_is_error fuel s :
     change_nonneg ->
     sum_values (filter okrowb db) < pay ->
-    propose_transaction change db e acct pay prefs pol lp fuel <> Ok s.
+    propose_transaction change db e acct pay prefs pol lp iw step_anchor single fuel <> Ok s.
   Proof.
     intros C Hlt H.
     pose proof (greedy_change_nonneg fuel [] 0 0 [] s C H) as [Hc Hf].
-    apply propose_transaction_sound in H. destruct H as [inputs [_ [Hval [_ [Hpay [G Hbal]]]]]].
+    apply propose_transaction_sound in H. destruct H as [inputs [_ [Hval [_ [Hpay [_ [G Hbal]]]]]]].
     pose proof (good_sum_le inputs G). unfold step_balanced in Hbal. lia.
   Qed.
 
@@ -217,23 +280,23 @@ Section Greedy.
   Lemma greedy_fuel fuel : forall sel prior req excl,
     prior <= sum_values db ->
     sum_values db - prior < Z.of_nat fuel ->
-    greedy change db e acct pay prefs pol lp fuel sel prior req excl <> Err EOutOfFuel.
+    greedy change db e acct pay prefs pol lp iw step_anchor single fuel sel prior req excl <> Err EOutOfFuel.
   Proof.
     induction fuel as [|f IH]; intros sel prior req excl Hp Hf; [lia|].
-    cbn. destruct (change (trim sel (use_pools sel req prefs))) as [ch fee|req'|ids|].
-    - unfold step_from_parts. destruct (_ =? _); discriminate.
+    cbn. destruct (change step_anchor (trim sel (use_pools sel req prefs))) as [cs fee|req'|ids|].
+    - unfold step_from_parts. destruct (iw && _ && _); [discriminate|]. destruct (_ =? _); discriminate.
     - destruct (_ <=? prior) eqn:E; [discriminate|].
-      pose proof (good_sum_le _ (select_all_good req' excl)). pose proof filter_sum_le.
+      pose proof (good_sum_le _ (select_next_good req' excl)). pose proof filter_sum_le.
       apply IH; lia.
     - destruct (_ <=? prior) eqn:E; [discriminate|].
-      pose proof (good_sum_le _ (select_all_good req (excl ++ ids))). pose proof filter_sum_le.
+      pose proof (good_sum_le _ (select_next_good req (excl ++ ids))). pose proof filter_sum_le.
       apply IH; lia.
     - discriminate.
   Qed.
 
   Theorem greedy_terminates fuel :
     sum_values db < Z.of_nat fuel ->
-    propose_transaction change db e acct pay prefs pol lp fuel <> Err EOutOfFuel.
+    propose_transaction change db e acct pay prefs pol lp iw step_anchor single fuel <> Err EOutOfFuel.
   Proof.
     intros H. unfold propose_transaction. apply greedy_fuel; [|lia].
     pose proof filter_sum_le. pose proof (good_sum_le [] ltac:(split; [intros r [] | constructor])).
@@ -242,12 +305,12 @@ Section Greedy.
 
   (** More fuel never changes a result that was reached. *)
   Lemma greedy_fuel_mono fuel : forall sel prior req excl r,
-    greedy change db e acct pay prefs pol lp fuel sel prior req excl = r -> r <> Err EOutOfFuel ->
-    greedy change db e acct pay prefs pol lp (S fuel) sel prior req excl = r.
+    greedy change db e acct pay prefs pol lp iw step_anchor single fuel sel prior req excl = r -> r <> Err EOutOfFuel ->
+    greedy change db e acct pay prefs pol lp iw step_anchor single (S fuel) sel prior req excl = r.
   Proof.
     induction fuel as [|f IH]; intros sel prior req excl r H Hne; [cbn in H; congruence|].
     cbn in H. cbn [greedy].
-    destruct (change (trim sel (use_pools sel req prefs))) as [ch fee|req'|ids|]; try exact H.
+    destruct (change step_anchor (trim sel (use_pools sel req prefs))) as [cs fee|req'|ids|]; try exact H.
     - destruct (_ <=? prior); [exact H|]. apply IH; assumption.
     - destruct (_ <=? prior); [exact H|]. apply IH; assumption.
   Qed.
@@ -261,22 +324,103 @@ Proof.
   split; [reflexivity | apply nodup_refs_spec; exact E].
 Qed.
 
-Theorem propose_transfer_sound change fuel db e tip acct pay orchard_out permitted pol lp lock steps :
-  NoDup (rrefs db) -> 1 <= p_trusted pol -> p_trusted pol <= p_untrusted pol ->
-  propose_transfer change fuel db e tip acct pay orchard_out permitted pol lp lock = Ok steps ->
-  NoDup (concat (map s_inputs steps))
-  /\ forall s, In s steps ->
-       step_ok db e acct pay (pool_preference false orchard_out permitted) pol lp s.
+Lemma finish_steps db e tip lock s steps :
+  finish db e tip lock s = Ok steps -> steps = [s] /\ NoDup (concat (map s_inputs [s])).
 Proof.
-  intros Hn Ht Hu H. unfold propose_transfer in H.
-  destruct (e_anchor e); [|discriminate].
-  destruct (propose_transaction _ _ _ _ _ _ _ _ _) as [s| |] eqn:E; try discriminate.
-  destruct (multi_step [s]) as [st| |] eqn:M; try discriminate.
-  apply multi_step_nodup in M. destruct M as [-> Hnd].
-  assert (steps = [s]) as ->.
-  { destruct lock as [[o fb]|]; [destruct (lock_outputs _ _ _ _ _); [|discriminate]|]; inversion H; reflexivity. }
-  split; [exact Hnd|]. intros s' [<-|[]].
-  eapply propose_transaction_sound; eassumption.
+  unfold finish. destruct (multi_step [s]) as [st| |] eqn:M; try discriminate.
+  apply multi_step_nodup in M. destruct M as [-> Hnd]. intros H.
+  split; [|exact Hnd].
+  destruct lock as [[o fb]|]; [destruct (lock_outputs _ _ _ _ _); [|discriminate]|]; inversion H; reflexivity.
+Qed.
+
+(** bucketed: a stricter policy whose anchor is a grid boundary *)
+Lemma bucketed_spec pol interval target activation bp :
+  0 < interval -> 1 <= p_trusted pol -> p_trusted pol <= p_untrusted pol ->
+  bucketed pol interval target activation = Some bp ->
+  p_trusted pol <= p_trusted bp /\ p_untrusted pol <= p_untrusted bp
+  /\ 1 <= p_trusted bp /\ p_trusted bp <= p_untrusted bp
+  /\ (ssub target (p_trusted bp)) mod interval = 0
+  /\ activation < ssub target (p_trusted bp).
+Proof.
+  intros Hi Ht Hu H. unfold bucketed in H.
+  set (ordinary := ssub target (p_trusted pol)) in *.
+  destruct (_ <? interval) eqn:E1; [discriminate|].
+  destruct (_ <=? activation) eqn:E2; [discriminate|].
+  destruct (target <? _) eqn:E3; [discriminate|].
+  destruct (_ =? 0) eqn:E4; [discriminate|].
+  inversion H; subst bp. clear H. cbn [p_trusted p_untrusted].
+  pose proof (Z.mod_pos_bound ordinary interval Hi) as Hm.
+  assert (Ho : 0 <= ordinary) by (unfold ordinary, ssub; lia).
+  assert (Hord : ordinary <= target - p_trusted pol \/ ordinary = 0) by (unfold ordinary, ssub; lia).
+  assert (Hb : ssub target (target - (ordinary - ordinary mod interval - interval)) = ordinary - ordinary mod interval - interval)
+    by (unfold ssub; lia).
+  rewrite Hb.
+  split; [destruct Hord; lia|]. split; [lia|]. split; [lia|]. split; [lia|].
+  split; [|lia].
+  replace (ordinary - ordinary mod interval - interval) with (interval * (ordinary / interval - 1)).
+  - rewrite Z.mul_comm. apply Z.mod_mul. lia.
+  - pose proof (Z.div_mod ordinary interval ltac:(lia)). lia.
+Qed.
+
+(** The parameters a returned step was selected under: the caller's, or those of the canonical
+    (bucketed) attempt. *)
+Inductive step_origin (db : list note_row) (e : env) (acct pay : Z) (orchard_out : bool) (permitted : list pool)
+    (pol : policy) (lp : lip) (canon : option canon_in) (s : step) : Prop :=
+| origin_ordinary anchor :
+    e_anchor e = Some anchor ->
+    step_ok db e acct pay
+      (pool_preference (match canon with Some _ => true | None => false end) orchard_out permitted) pol lp anchor s ->
+    step_origin db e acct pay orchard_out permitted pol lp canon s
+| origin_canonical ci bp :
+    canon = Some ci ->
+    bucketed pol (c_interval ci) (e_target e) (c_activation ci) = Some bp ->
+    ssub (e_target e) (p_trusted bp) = c_boundary ci ->
+    In Orchard permitted ->
+    step_ok db (Env (e_target e) (c_sel_anchor ci) (e_ranges e)) acct pay
+      (pool_preference true orchard_out [Orchard]) bp lp (c_boundary ci) s ->
+    step_origin db e acct pay orchard_out permitted pol lp canon s.
+
+Theorem propose_transfer_sound change fuel db e tip acct pay single_payment orchard_out permitted pol lp lock canon steps :
+  NoDup (rrefs db) -> 1 <= p_trusted pol -> p_trusted pol <= p_untrusted pol ->
+  (forall ci, canon = Some ci -> 0 < c_interval ci) ->
+  propose_transfer change fuel db e tip acct pay single_payment orchard_out permitted pol lp lock canon = Ok steps ->
+  NoDup (concat (map s_inputs steps))
+  /\ forall s, In s steps -> step_origin db e acct pay orchard_out permitted pol lp canon s.
+Proof.
+  intros Hn Ht Hu Hci H. unfold propose_transfer in H.
+  destruct (e_anchor e) as [anchor|] eqn:Ea; [|discriminate].
+  assert (Hord : forall steps0,
+    match propose_transaction change db e acct pay
+            (pool_preference (match canon with Some _ => true | None => false end) orchard_out permitted)
+            pol lp (match canon with Some _ => true | None => false end) anchor false fuel with
+    | Ok s => finish db e tip lock s | Err x => Err x | Panic => Panic end = Ok steps0 ->
+    NoDup (concat (map s_inputs steps0))
+    /\ forall s, In s steps0 -> step_origin db e acct pay orchard_out permitted pol lp canon s).
+  { intros steps0 H0.
+    destruct (propose_transaction _ _ _ _ _ _ _ _ _ _ _ _) as [s| |] eqn:E; try discriminate.
+    apply finish_steps in H0. destruct H0 as [-> Hnd]. split; [exact Hnd|].
+    intros s' [<-|[]]. eapply origin_ordinary; [exact Ea|].
+    eapply propose_transaction_sound; eassumption. }
+  destruct canon as [ci|]; [|apply Hord; exact H].
+  destruct (single_payment && is_canonical_denomination pay && existsb (pool_eqb Orchard) permitted) eqn:Ec;
+    [|apply Hord; exact H].
+  destruct (bucketed pol (c_interval ci) (e_target e) (c_activation ci)) as [bp|] eqn:Eb; [|apply Hord; exact H].
+  destruct (negb (ssub (e_target e) (p_trusted bp) =? c_boundary ci)) eqn:Ebd; [discriminate|].
+  destruct (c_computable ci); [|apply Hord; exact H].
+  destruct (propose_transaction change db (Env (e_target e) (c_sel_anchor ci) (e_ranges e)) acct pay
+              (pool_preference true orchard_out [Orchard]) bp lp true (ssub (e_target e) (p_trusted bp)) true fuel)
+    as [s|x|] eqn:E.
+  - destruct (is_canonical_crossing ci single_payment orchard_out s); [|apply Hord; exact H].
+    apply finish_steps in H. destruct H as [-> Hnd]. split; [exact Hnd|].
+    intros s' [<-|[]].
+    destruct (bucketed_spec _ _ _ _ _ (Hci ci eq_refl) Ht Hu Eb) as [_ [_ [Hb1 [Hb2 _]]]].
+    assert (Hbd : ssub (e_target e) (p_trusted bp) = c_boundary ci) by (apply negb_false_iff in Ebd; lia).
+    eapply (origin_canonical _ _ _ _ _ _ _ _ _ _ ci bp); try reflexivity; try assumption.
+    + rewrite !andb_true_iff in Ec. destruct Ec as [_ Ec]. apply existsb_exists in Ec.
+      destruct Ec as [q [Hq Eq]]. apply pool_eqb_eq in Eq. subst q. exact Hq.
+    + rewrite <- Hbd. eapply propose_transaction_sound; try eassumption.
+  - destruct x; try discriminate. apply Hord; exact H.
+  - discriminate.
 Qed.
 
 (** A permitted-pool fact used by the bridge: preference lists only contain permitted pools. *)
